@@ -423,6 +423,15 @@ def mutants(decls, rng):
             nd = d.copy()
             nd.lines.insert(vl + 1, "  untyped_var : NoSuchType;")
             out.append(("P0022", "variable of an undeclared type in %s" % d.name, with_decl(i, nd)))
+        if d.kind in ("fb", "program") and "instance" in d.info:
+            # the instance of this unit invoked in another unit that does not declare it: instances are local to their unit
+            inst = d.info["instance"][0]
+            for pi, x in enumerate(decls):
+                if pi != i and x.kind in ("fb", "program") and x.info.get("instance", (None,))[0] != inst:
+                    nd = x.copy()
+                    nd.lines.insert(len(nd.lines) - 1, "  %s();" % inst)
+                    out.append(("P0021", "instance %s of %s invoked in %s, which does not declare it" % (inst, d.name, x.name), with_decl(pi, nd)))
+                    break
         if d.kind == "configuration" and d.info.get("global"):
             # a program that uses the global without declaring it VAR_EXTERNAL: the name is not in its scope
             gname = d.info["global"][0]
